@@ -14,6 +14,8 @@ def main():
     pid, var = sys.argv[1], sys.argv[2]
     run_all = "--all" in sys.argv
     wt = f"/tmp/wt/{pid}"
+    if not os.path.isdir(f"{wt}/SEED/{var}") and os.path.isdir(f"/tmp/wt/T_{pid}/SEED/{var}"):
+        wt = f"/tmp/wt/T_{pid}"  # round-3 worktrees
     sd = f"{wt}/SEED/{var}"
     out = {"property": pid, "variant": var}
     env = dict(os.environ, PYTHONPATH=wt)
@@ -65,7 +67,7 @@ def main():
     meta["evaluation"] = {"suite_with_patch": out["suite_with_patch"], "demo_rc_with_patch": rc_demo_patched, "demo_rc_clean": rc_demo_clean,
                           "confirmed": out["confirmed"], "checks_run": {p: {"exit": r["rc"], "rules": r["rules"], "keys": r["keys"]} for p, r in res.items() if r["rc"] != 0 or p == pid},
                           "detected": out["detected"],
-                          "commands": [f"cd /tmp/wt/{pid} && git apply SEED/{var}/patch.diff && pytest (38 passed) && python SEED/{var}/demo.py (FAIL) && git checkout -- websocket && python SEED/{var}/demo.py (PASS)",
+                          "commands": [f"cd {wt} && git apply SEED/{var}/patch.diff && pytest (38 passed) && python SEED/{var}/demo.py (FAIL) && git checkout -- websocket && python SEED/{var}/demo.py (PASS)",
                                        f"git -C /repo apply /verif/seeded/{pid}-{var}/patch.diff && python3-vt -m wsverif check {pid} && git -C /repo checkout -- ."]}
     json.dump(meta, open(f"{dst}/meta.json", "w"), indent=1)
     print(json.dumps({k: v for k, v in out.items()}, indent=None)[:900])
